@@ -19,8 +19,10 @@
      created nodes carried when they were handed out. *)
 From Coq Require Import List NArith ZArith Bool String.
 From stdpp Require Import pmap.
-From OV Require Import Base.Bytes Base.Tree Model.Heap
-  Proofs.HeapIds Proofs.HeapTree Proofs.HeapOps Proofs.HeapRep Proofs.Heap Proofs.HeapReader Proofs.HeapCheck.
+From OV Require Import Base.Bytes Base.Cases Base.Tree Model.Hier Model.Stream Model.Heap Model.HeapReaders Model.HeapReadersHier
+  Proofs.HeapIds Proofs.HeapTree Proofs.HeapOps Proofs.HeapRep Proofs.Heap Proofs.HeapReader Proofs.HeapCheck
+  Proofs.HeapPay Proofs.HeapZip Proofs.HeapPrims Proofs.HeapReaders Proofs.HeapReadersJson
+  Proofs.HeapReadersHier.
 Import ListNotations.
 
 (* (1) Refinement: an operation whose API precondition holds never panics, never runs out of
@@ -120,6 +122,83 @@ Theorem reader_slot_no_double_release : forall cs,
   NoDup rm /\ (forall r, r ∈ rm -> r ∈ deliveries cs).
 Proof. exact reader_slot_pf. Qed.
 
+(* (5) readers_respect_api, stream readers.  Model/HeapReaders.v executes the XML / JSON stream
+   reader models of Model/Stream.v (C04, C17) on the node heap: the reader's right-spine zipper is
+   kept with addresses, every structural action is issued as the idr API call the Go code makes
+   (CreateXMLNode/CreateJSONNode + AddChild; RemoveAndReleaseTree of the rejected or released
+   stream node), through [do_op], which stops (None) if the call's precondition [pre_b] is false in
+   the state it is issued in or the call does not return normally.
+   For every target (pm, pred, filter flags), every token list, every Release pattern, pooling on
+   or off, every legal pool chooser, and every good start state (any reachable state is good):
+   the run never stops; the final state is good (Rep holds); [ext]: the logged calls, replayed
+   by run2 - which checks pre_b before each call - lead from the start state to the final one;
+   and [deliv_ok]: at each delivery the state is good, the delivered node's addressed subtree is
+   live, tree_ok (all links sound), and its payload tree read from the heap IS the abstract
+   Base.Tree tree the reader model delivers.  This is what licenses the abstract trees used by
+   the other models. *)
+Theorem reachable_is_good : forall caching s F acq log,
+  reachable caching s F acq -> good caching (mkM s F acq log).
+Proof. exact reachable_good_pf. Qed.
+
+Theorem xml_reader_respects_api : forall pm pred hf oc caching choose,
+  legal caching choose ->
+  forall m0 rel toks, good caching m0 ->
+  exists r0 r' ds,
+    reader_init caching choose m0 (FXml [] []) = Some r0 /\
+    hx_run pm pred hf oc caching choose x_init r0 rel toks = Some (r', ds) /\
+    good caching (r_m r') /\ ext caching m0 (r_m r') /\
+    Forall2 (deliv_ok caching) ds (map fst (fst (xrun pm pred hf oc x_init rel toks))).
+Proof. exact xml_reader_pf. Qed.
+
+(* The JSON reader additionally writes FormatSpecific of the current node directly
+   (sp.cur.FormatSpecific = JSONTypeOf(sp.cur) | JSONObj): not an API call, so there is no call
+   log statement; the write keeps Rep (rep_set_fs) and the simulation. *)
+Theorem json_reader_respects_api : forall pm pred hf oc caching choose,
+  legal caching choose ->
+  forall m0 rel toks, good caching m0 ->
+  exists r0 r' ds,
+    reader_init caching choose m0 (FJson 1) = Some r0 /\
+    hj_run pm pred hf oc caching choose j_init r0 rel toks = Some (r', ds) /\
+    good caching (r_m r') /\
+    Forall2 (deliv_ok caching) ds (map fst (fst (jrun pm pred hf oc j_init rel toks))).
+Proof. exact json_reader_pf. Qed.
+
+(* (6) readers_respect_api, hierarchy readers.  Model/HeapReadersHier.v runs the stack machines of
+   Model/Hier.v (C05: flatfile/hierarchyReader.go for csv2 / fixedlength2, and edi/reader.go) with
+   addresses: every stack entry carries its recNode / segNode pointer, r.target is an address, a
+   matched record is built (CreateNode plus, per column, CreateNode / AddChild / CreateNode /
+   AddChild) and attached with AddChild(stackTop(1).recNode, node) - the pointer taken from the
+   stack entry is checked to be the node the tree structure dictates -, recDone sets r.target =
+   cur.recNode (checked to be the node completed last), and the Read prologue / Release remove
+   r.target.  [cols] (the columns of a record) and [nm] (names) are arbitrary functions, try_leaf
+   any leaf matcher.  For every declaration tree, unit list, fuel, pooling mode, legal pool
+   chooser and good start state: the run never stops on a failed precondition or pointer check;
+   the final state is good; the logged calls replay through run2 (pre_b checked per call); every
+   delivered address is the root of a live, tree_ok subtree in a good state; and the instances
+   delivered are exactly those Model/Hier.v delivers (the abstract part of every addressed step
+   is the C05 step: erasure). *)
+Theorem hier_reader_respects_api : forall caching choose nm cols try_leaf,
+  legal caching choose ->
+  forall m0 ds us fuel, good caching m0 ->
+  exists a0 a' dl,
+    init_a caching choose nm m0 ds us = Some a0 /\
+    run_a caching (hstep_a caching choose nm cols try_leaf) fuel a0 = Some (a', dl) /\
+    good caching (r_m (a_rd a')) /\ ext caching m0 (r_m (a_rd a')) /\
+    Forall (hdeliv_ok caching) dl /\
+    map snd dl = fst (Hier.run (hstep try_leaf) fuel (Hier.init ds us)).
+Proof. exact hier_reader_pf. Qed.
+
+Theorem edi_reader_respects_api : forall caching choose nm cols try_leaf,
+  legal caching choose ->
+  forall m0 ds us fuel, good caching m0 ->
+  exists a0 a' dl,
+    init_a caching choose nm m0 ds us = Some a0 /\
+    run_a caching (edi_step_a caching choose nm cols try_leaf) fuel a0 = Some (a', dl) /\
+    good caching (r_m (a_rd a')) /\ ext caching m0 (r_m (a_rd a')) /\
+    Forall (hdeliv_ok caching) dl /\
+    map snd dl = fst (Hier.run (edi_step try_leaf) fuel (Hier.init ds us)).
+Proof. exact edi_reader_pf. Qed.
+
 (* ---- non-vacuity ------------------------------------------------------------------------------ *)
 (* A history that builds a tree, removes a middle subtree (two nodes are reset and pooled) and
    creates two nodes that reuse the pooled ones, attaching one of them elsewhere. *)
@@ -184,6 +263,49 @@ Example pre_needed_not_own_ancestor :
                   | Some x => n_parent x = Some 1%positive /\ n_first x = Some 1%positive
                   | None => False end)
   | _ => False
+  end.
+Proof. vm_compute. split; reflexivity. Qed.
+
+(* the reader bridge on concrete inputs: <r><n a="1">x</n><n>y</n></r> with target /r/n, pooling on,
+   the chooser that always takes the most recently pooled node; two deliveries, the second record
+   reuses the nodes of the first *)
+Definition ex_choose (s : st) : choice := match pool s with a :: _ => FromPool a | [] => Fresh end.
+Definition ex_m0 : mach := mkM init [] [] [].
+Definition ex_xtoks : list xtoken :=
+  [XStart (hx "72"%string) (FXml [] []) [];
+   XStart (hx "6e"%string) (FXml [] []) [(hx "61"%string, FXml [] [], hx "31"%string)]; XText (hx "78"%string); XEnd;
+   XStart (hx "6e"%string) (FXml [] []) []; XText (hx "79"%string); XEnd; XEnd].
+Definition ex_pm (chain : list name) : bool :=
+  list_eqb name_eqb chain [([], hx "72"%string); ([], hx "6e"%string)].
+
+Example c12_xml_bridge_nonvacuous :
+  legal true ex_choose /\
+  match reader_init true ex_choose ex_m0 (FXml [] []) with
+  | Some r0 =>
+      match hx_run ex_pm ptrue false false true ex_choose x_init r0 [true; false] ex_xtoks with
+      | Some (r', ds) => length ds = 2 /\ length (m_log (r_m r')) = 17 /\
+                         existsb (fun o => match o with OCreate (FromPool _) _ _ _ => true | _ => false end) (m_log (r_m r')) = true
+      | None => False
+      end
+  | None => False
+  end.
+Proof.
+  split.
+  - intros s. unfold ex_choose. destruct (pool s) eqn:E; [exact Logic.I|]. split; [reflexivity|]. apply elem_of_cons. auto.
+  - vm_compute. repeat split.
+Qed.
+
+(* csv2-like hierarchy: one target record declaration with two occurrences; two deliveries *)
+Example c12_hier_bridge_nonvacuous :
+  let ds := [D 1 false true 0 None (LName 7) []] in
+  let us := [U 7 100; U 7 101] in
+  match init_a true ex_choose (fun _ => []) ex_m0 ds us with
+  | Some a0 =>
+      match run_a true (hstep_a true ex_choose (fun _ => []) (fun _ _ => [([], [])]) flat_leaf) 40 a0 with
+      | Some (a', dl) => length dl = 2 /\ map snd dl = fst (Hier.run (hstep flat_leaf) 40 (Hier.init ds us))
+      | None => False
+      end
+  | None => False
   end.
 Proof. vm_compute. split; reflexivity. Qed.
 
